@@ -272,6 +272,13 @@ def normalise_worklists(fn):
                    'params': [{'pat': _pident(x, ln), 'ty': 'Handle < _ >'}] + [{'pat': _pident(cn, ln), 'ty': tys[cn]} for cn in caps]}
             made.append(sfn)
             stmts[j]['pat'] = dict(stmts[j]['pat'], mut=False)
+            init = stmts[j]['init']
+            if init.get('k') == 'Macro' and init.get('name') == 'vec' and init.get('args') and not any(_mentions(a_, W) for a_ in init['args']) and j == i - 1:
+                # `let mut W = vec![a, b]; while let ..`: the seeds are spelled out - one call each (in the list's order)
+                seq = [{'k': 'ExprStmt', 'line': ln, 'semi': True,
+                        'expr': {'k': 'Call', 'line': ln, 'func': _path(syn, ln), 'args': [copy.deepcopy(a_)] + [_path(cn, ln) for cn in caps]}} for a_ in init['args']]
+                stmts[i] = {'k': 'ExprStmt', 'line': ln, 'semi': True, 'expr': {'k': 'Block', 'line': ln, 'stmts': seq}}
+                continue
             call = {'k': 'Call', 'line': ln, 'func': _path(syn, ln), 'args': [_path('__wl_seed', ln)] + [_path(cn, ln) for cn in caps]}
             stmts[i] = {'k': 'ExprStmt', 'line': ln, 'semi': True,
                         'expr': {'k': 'For', 'line': ln, 'pat': _pident('__wl_seed', ln), 'expr': _path(W, ln),
@@ -1841,6 +1848,43 @@ class Interp:
         self.templates.setdefault(tid, {'fn': self.frame['callee'], 'line': e['line'], 'text': self.tmpl_text(items)})
         return t
 
+    def tokens_of(self, v, node):
+        """a value of a crate type with a hand-written `impl ToTokens` interpolated into a template: the tokens its `to_tokens` appends"""
+        leaves = []
+
+        def collect(x, depth=0):
+            if x[0] == 'alt' and depth < 6:
+                for _, y in x[1]:
+                    collect(y, depth + 1)
+            elif x[0] == 'opt' and depth < 6:
+                collect(x[2], depth + 1)
+            elif x[0] != 'diverge':
+                leaves.append(x)
+        collect(v)
+        tys = set()
+        for x in leaves:
+            if x[0] == 'path' and x[1].rsplit('::', 1)[0] in self.c.enums:
+                tys.add(x[1].rsplit('::', 1)[0])
+            elif x[0] == 'struct' and (x[1] in self.c.structs or x[1].rsplit('::', 1)[0] in self.c.enums):
+                tys.add(x[1] if x[1] in self.c.structs else x[1].rsplit('::', 1)[0])
+            else:
+                return v
+        if len(tys) != 1:
+            return v
+        ty = tys.pop()
+        mod, short = ty.rsplit('::', 1)
+        q = f'{mod}::<{short} as ToTokens>::to_tokens'
+        if q not in self.c.fns:
+            q = f'{mod}::<{short} as quote::ToTokens>::to_tokens'
+        if q not in self.c.fns or q in self.stack:
+            return v
+        aid = self.fresh('acc')
+        self.accs[aid] = {'entries': [], 'fn': self.frame['fn'], 'name': '__tokens', 'line': node.get('line', 0), 'ts': True,
+                          'site': f"{self.c.relfile(self.c.fns[q]['file'])}:{self.c.fns[q].get('line', 0)}", 'callee': q}
+        self.inline_calls.append((self.frame['callee'], q, node.get('line', 0)))
+        self.call_fn(q, [v, ('acc', aid)], line=node.get('line', 0))
+        return self.acc_view(('acc', aid))
+
     def synthetic_tmpl(self, toks, env, e):
         tid = f"{self.c.relfile(self.c.fns[self.frame['callee']]['file'])}:{e['line']}"
         items = self.tmpl_items(toks, env, e)
@@ -1921,6 +1965,7 @@ class Interp:
                     if v is None:
                         v = self.unknown('quote hole #' + nx['v'] + ' not bound', node)
                     v = self.acc_view(v)
+                    v = self.tokens_of(v, node)
                     if v[0] == 'punct':
                         items.append(('rep', [('hole', nx['v'], self.acc_view(v[1]))], v[2]))
                     else:
@@ -1973,6 +2018,14 @@ class Interp:
                 self.inline_calls.append((self.frame['callee'], p, e['line']))
                 return self.call_fn(p, args, line=e['line'])
             last = segs[-1]
+            if last == 'from' and len(args) == 1 and len(segs) >= 2:
+                tyq = self.resolve(segs[:-1])
+                if tyq in self.c.enums or tyq in self.c.structs:
+                    mod_, short_ = tyq.rsplit('::', 1)
+                    impls = [fq for fq in self.c.fns if fq.startswith(f'{mod_}::<{short_} as From<') and fq.endswith('>::from')]
+                    if len(impls) == 1:
+                        self.inline_calls.append((self.frame['callee'], impls[0], e['line']))
+                        return self.call_fn(impls[0], args, line=e['line'])
             if p in ('Some', 'Option::Some', 'std::option::Option::Some'):
                 return ('opt', TRUE, args[0])
             if p in ('Ok', 'Result::Ok'):
